@@ -69,9 +69,11 @@ type Case struct {
 	Jobs int `json:"jobs,omitempty"`
 	// ErrFirst: a helper call that must be rejected (60 stops) is made just before the call under
 	// test, on the same Generator, with no Reset in between.
-	ErrFirst bool       `json:"err_first,omitempty"`
-	ViewBox  [4]ops.F32 `json:"viewbox"`
-	Rect     [4]int     `json:"rect"`
+	ErrFirst bool `json:"err_first,omitempty"`
+	// SwitchDest: with Jobs > 1, the Generator gets a new destination object for the later job.
+	SwitchDest bool       `json:"switch_dest,omitempty"`
+	ViewBox    [4]ops.F32 `json:"viewbox"`
+	Rect       [4]int     `json:"rect"`
 }
 
 func arg(c Case, i int) float32 {
@@ -157,19 +159,25 @@ func checkHelper(c Case) error {
 	n := len(c.Stops)
 
 	// the destination under test, wrapped so that every call is seen
-	var inner ivg.Destination
 	var enc *encode.Encoder
-	rr := &rast.Recorder{}
-	switch c.Dest {
-	case "renderer":
-		z := &render.Renderer{}
-		z.SetRasterizer(rr, rect)
-		inner = z
-	case "encoder":
-		enc = &encode.Encoder{}
-		inner = enc
+	var rr *rast.Recorder
+	var hook *ops.Recorder
+	newDest := func() {
+		var inner ivg.Destination
+		enc = nil
+		rr = &rast.Recorder{}
+		switch c.Dest {
+		case "renderer":
+			z := &render.Renderer{}
+			z.SetRasterizer(rr, rect)
+			inner = z
+		case "encoder":
+			enc = &encode.Encoder{}
+			inner = enc
+		}
+		hook = &ops.Recorder{Inner: inner}
 	}
-	hook := &ops.Recorder{Inner: inner}
+	newDest()
 	var g generate.Generator
 	g.SetDestination(hook)
 	jobs := c.Jobs
@@ -177,6 +185,11 @@ func checkHelper(c Case) error {
 		jobs = 1
 	}
 	for job := 0; job < jobs; job++ {
+		if job > 0 && c.SwitchDest {
+			// the same Generator is pointed at a new destination of the same kind
+			newDest()
+			g.SetDestination(hook)
+		}
 		if err := oneJob(c, &g, hook, enc, rr, vb, rect, n); err != nil {
 			if v, ok := err.(*harness.Violation); ok && job > 0 {
 				v.Msg = fmt.Sprintf("job %d on the same Generator: %s", job+1, v.Msg)
@@ -560,6 +573,10 @@ func genCase(t *rapid.T) (Case, []string) {
 	if rapid.IntRange(0, 3).Draw(t, "jobs") == 0 {
 		c.Jobs = 2
 		labels = append(labels, "same-helper-call-again-after-Reset")
+		if rapid.Bool().Draw(t, "switchdest") {
+			c.SwitchDest = true
+			labels = append(labels, "generator-pointed-at-a-new-destination-for-the-second-job")
+		}
 	}
 	labels = append(labels, "kind="+c.Kind, "dest="+c.Dest, fmt.Sprintf("stops=%s", stopBucket(n)))
 	switch {
